@@ -186,6 +186,10 @@ func register() {
 		s := d.Big("s")
 		return runBase(s, d.I("path"), ref.BaseMul(s))
 	})
+	mc.Register("baserecv", func(d mc.D) string {
+		s := d.Big("s")
+		return runBaseRecv(s, ref.BaseMul(s))
+	})
 	mc.Register("entry", func(d mc.D) string {
 		buildRefTable()
 		return runEntry(d.Bool("huge"), d.I("i"), d.I("j"))
@@ -271,7 +275,7 @@ func main() {
 		if b%16 == 0 {
 			R.T(1)
 			if m := mc.Safe(func() string { return runBaseRecv(s, refTab[i][b]) }); m != "" {
-				R.Mismatch("base/receiver pre-loaded/"+cfg, "base", m, mc.D{"s": mc.HexBig(s), "path": 0})
+				R.Mismatch("base/receiver with a past/"+cfg, "baserecv", m, mc.D{"s": mc.HexBig(s)})
 			}
 		}
 		R.State(mc.HS("byte", fmt.Sprint(n)))
